@@ -72,8 +72,17 @@ fn read_all(f: &mut impl Read) -> String {
         2 => std::io::copy(f, &mut buf).map(|_| ()),
         _ => { let mut b = vec![0u8; 65536]; loop { match f.read(&mut b) { Ok(0) => break Ok(()), Ok(n) => buf.extend_from_slice(&b[..n]), Err(e) => break Err(e) } } }
     };
+    // a consumer may call `read` again after the end or after an error (`BufReader`, retry loops): the call must
+    // come back (a panic here is caught by the caller's `catch` and reported), and after a clean end it must keep
+    // saying end-of-file
+    let mut b = [0u8; 7];
+    let again = f.read(&mut b);
     match r {
-        Ok(()) => format!("ok:{}:{}", crc32fast::hash(&buf), buf.len()),
+        Ok(()) => match again {
+            Ok(0) => format!("ok:{}:{}", crc32fast::hash(&buf), buf.len()),
+            Ok(n) => format!("ok:{}:{}:then-{n}-more-bytes-after-eof", crc32fast::hash(&buf), buf.len()),
+            Err(e) => format!("ok:{}:{}:then-{}-after-eof", crc32fast::hash(&buf), buf.len(), cls_io(&e)),
+        },
         Err(e) => cls_io(&e),
     }
 }
@@ -155,20 +164,126 @@ pub fn codec_table(bytes: &[u8]) -> String {
     if rows.is_empty() { "-".into() } else { rows.join(";") }
 }
 
+/// One row of the codec table: `raw` decoded by the codec library directly.
+pub fn codec_row_for(m: u16, raw: &[u8]) -> String {
+    let c = crc32fast::hash(raw);
+    match catch({
+        let raw = raw.to_vec();
+        move || direct_decode(m, &raw)
+    }) {
+        Ok(Ok(d)) => format!("{m}:{c}:{}:ok:{}", raw.len(), hex(&d)),
+        Ok(Err(e)) => format!("{m}:{c}:{}:err:{}", raw.len(), cls_io(&e).trim_start_matches("err:")),
+        Err(_) => format!("{m}:{c}:{}:err:io:other", raw.len()),
+    }
+}
+
+/// The central directory as the crate parses it (through the hooks): what `ZipArchive::new` stores per entry,
+/// including the fields no accessor shows (`aes_mode`, `using_data_descriptor`).  Empty when the open fails.
+pub fn directory_entries(bytes: &[u8]) -> Vec<zip::verif_hooks::ZipFileData> {
+    let b = bytes.to_vec();
+    catch(move || {
+        use std::io::Seek;
+        let mut c = Cursor::new(&b[..]);
+        let mut out = vec![];
+        let (footer, cde) = match zip::verif_hooks::CentralDirectoryEnd::find_and_parse(&mut c) { Ok(x) => x, Err(_) => return out };
+        let (off, ds, n) = match zip::verif_hooks::get_directory_counts(&mut c, &footer, cde) { Ok(x) => x, Err(_) => return out };
+        if c.seek(std::io::SeekFrom::Start(ds)).is_err() { return out; }
+        for _ in 0..n.min(64) {
+            match zip::verif_hooks::central_header_to_zip_file(&mut c, off) { Ok(f) => out.push(f), Err(_) => break }
+        }
+        out
+    })
+    .unwrap_or_default()
+}
+
+/// What the MODEL needs to answer a password-carrying `read.seek` (the cryptographic primitives are uninterpreted
+/// in `Model/Aes.lean`; the driver instantiates them with look-ups into these rows, computed here with the
+/// RustCrypto crates directly; ZipCrypto is computed by the model itself): for every entry with the encryption
+/// flag and an AES record, `salt:dk:ks:mlen:mh:mac` = the salt found in the data, PBKDF2(pw, salt) of 2k+2 bytes,
+/// the key stream for the ciphertext that is there, length / FNV-1a of the ciphertext and its HMAC-SHA1.  Second
+/// component: codec rows for the DECRYPTED streams of compressing methods (independent decryption: PKWARE cipher
+/// of `crate::pkware`, AES-CTR key stream above) wherever the password check passes.
+pub fn crypto_tables(bytes: &[u8], pw: &[u8]) -> (String, Vec<String>, bool) {
+    use super::aes::{fnv64, hmac_sha1, kdf, keystream};
+    let entries = directory_entries(bytes);
+    let raws: Vec<Option<Vec<u8>>> = {
+        let b = bytes.to_vec();
+        let n = entries.len();
+        catch(move || {
+            let mut v = vec![];
+            if let Ok(mut a) = zip::ZipArchive::new(Cursor::new(b)) {
+                for i in 0..a.len().min(n) {
+                    v.push(a.by_index_raw(i).ok().and_then(|mut f| { let mut raw = vec![]; f.read_to_end(&mut raw).ok().map(|_| raw) }));
+                }
+            }
+            v
+        })
+        .unwrap_or_default()
+    };
+    let mut rows: Vec<String> = vec![];
+    let mut codec: Vec<String> = vec![];
+    // a truncated AES payload under a compressing inner method whose password verifier passes: the decoder sees
+    // the decrypted PREFIX before the AES layer reports the missing bytes, and its verdict on that prefix may come
+    // first; the model decrypts the whole entry before decoding (`Ext.aes` returns the stream or its error)
+    let mut incremental = false;
+    let hx = |b: &[u8]| if b.is_empty() { "-".to_string() } else { hex(b) };
+    for (f, raw) in entries.iter().zip(raws.iter()) {
+        let raw = match raw { Some(r) => r, None => continue };
+        if !f.encrypted { continue; }
+        let m = method_u16(f.compression_method);
+        let compressing = m == 8 || m == 12 || m == 93;
+        match f.aes_mode {
+            Some((mode, _)) => {
+                let k = match mode { zip::verif_hooks::AesMode::Aes128 => 16usize, zip::verif_hooks::AesMode::Aes192 => 24, zip::verif_hooks::AesMode::Aes256 => 32 };
+                let sl = k / 2;
+                if raw.len() < sl { continue; }
+                let salt = &raw[..sl];
+                let dk = kdf(pw, salt, 2 * k + 2);
+                let dl = match f.compressed_size.checked_sub(sl as u64 + 12) { Some(d) => d, None => continue };
+                let body = if raw.len() >= sl + 2 { &raw[sl + 2..] } else { &raw[raw.len()..] };
+                let ct = &body[..(dl.min(body.len() as u64)) as usize];
+                let ks = keystream(&dk[..k], (ct.len() + 15) / 16 + 1);
+                let complete = ct.len() as u64 == dl;
+                let mac = if complete { hmac_sha1(&dk[k..2 * k], ct) } else { vec![] };
+                let row = format!("{}:{}:{}:{}:{}:{}", hx(salt), hx(&dk), hx(&ks), ct.len(), fnv64(ct), hx(&mac));
+                if !rows.contains(&row) { rows.push(row); }
+                let verified = raw.len() >= sl + 2 && raw[sl..sl + 2] == dk[2 * k..];
+                if compressing && verified && !complete && !ct.is_empty() { incremental = true; }
+                if compressing && complete && verified {
+                    let pt: Vec<u8> = ct.iter().zip(ks.iter()).map(|(a, b)| a ^ b).collect();
+                    codec.push(codec_row_for(m, &pt));
+                }
+            }
+            None => {
+                if raw.len() < 12 || !compressing { continue; }
+                let plain = crate::pkware::Keys::new(pw).decrypt(raw);
+                let check = if f.using_data_descriptor { (f.last_modified_time.timepart() >> 8) as u8 } else { (f.crc32 >> 24) as u8 };
+                if plain[11] == check { codec.push(codec_row_for(m, &plain[12..])); }
+            }
+        }
+    }
+    (if rows.is_empty() { "-".into() } else { rows.join(";") }, codec, incremental)
+}
+
 /// Does some entry of `bytes` decode differently under the four consumer APIs of `read_all`?  Real decoders are
 /// schedule dependent on DAMAGED streams (a zstd frame whose declared content size was altered ends quietly
 /// through small buffers and reports "Data corruption detected" through large ones), while the model's decoder
 /// is a table raw bytes -> outcome.  Such cases are left out of the correspondence (counted in `dist`); what a
 /// completed read may return on damaged data is C04's subject.
-pub fn schedule_dependent(bytes: &[u8]) -> bool {
+pub fn schedule_dependent(bytes: &[u8]) -> bool { schedule_dependent_pw(bytes, None) }
+
+/// The same when every entry is opened with a password (decrypted garbage reaches the decoders).
+pub fn schedule_dependent_pw(bytes: &[u8], pw: Option<&[u8]>) -> bool {
     let b = bytes.to_vec();
+    let pw = pw.map(|p| p.to_vec());
     catch(move || {
         let mut a = match zip::ZipArchive::new(Cursor::new(b)) { Ok(a) => a, Err(_) => return false };
         for i in 0..a.len().min(64) {
             let mut seen: Option<String> = None;
             for api in 0..4u32 {
                 reset_read_api(api);
-                let r = match a.by_index(i) { Ok(mut f) => read_all(&mut f), Err(_) => break };
+                let opened = match &pw { Some(p) => a.by_index_decrypt(i, p), None => a.by_index(i).map(Ok) };
+                let r = match opened { Ok(Ok(mut f)) => read_all(&mut f), _ => break };
                 match &seen { None => seen = Some(r), Some(s) => if *s != r { return true; } }
             }
         }
@@ -1110,6 +1225,54 @@ pub fn directory_in_comment(k: usize) -> Vec<u8> {
     b
 }
 
+/// A password-carrying `read.seek` line: every entry is opened with `by_index_decrypt(i, pw)` and read to its end.
+/// `None` when some decoder's outcome on the decrypted bytes depends on the consumer's buffer sizes, or when a decoder
+/// would be fed the decrypted prefix of a truncated AES payload (see `crypto_tables`).
+pub fn seek_pw_line(bytes: &[u8], pw: &[u8]) -> Option<String> {
+    let mut codec = codec_table(bytes);
+    let (aesp, extra, incremental) = crypto_tables(bytes, pw);
+    if incremental { return None; }
+    for row in extra {
+        if codec == "-" { codec = row; } else if !codec.split(';').any(|r| r == row) { codec = format!("{codec};{row}"); }
+    }
+    if codec != "-" && schedule_dependent_pw(bytes, Some(pw)) { return None; }
+    let pws = if pw.is_empty() { "-".to_string() } else { hex(pw) };
+    Some(format!("read.seek bytes={} codec={codec} pw={pws} aesp={aesp}", hex(bytes)))
+}
+
+/// Passwords for the adversarial classes: the one the crypto generators encrypt with, a different one, the empty
+/// one, one with NUL / high bytes, a long one.
+pub const GEN_PW: &[u8] = b"pw-C05";
+pub fn some_password(r: &mut Rng) -> Vec<u8> {
+    match r.below(6) {
+        0 | 1 => GEN_PW.to_vec(),
+        2 => vec![],
+        3 => b"wrong".to_vec(),
+        4 => vec![0, 0xff, 0x80, b'x', 0],
+        _ => { let n = r.range(1, 70) as usize; r.bytes(n) }
+    }
+}
+
+/// A password whose ZipCrypto check byte matches `check` on the 12-byte header `hdr` (brute force over short
+/// candidates; about one in 256 passes).
+pub fn passing_password(hdr: &[u8], check: u8) -> Option<Vec<u8>> {
+    if hdr.len() < 12 { return None; }
+    for i in 0..5000u32 {
+        let cand = format!("p{i}").into_bytes();
+        if crate::pkware::Keys::new(&cand).decrypt(&hdr[..12])[11] == check { return Some(cand); }
+    }
+    None
+}
+
+/// A ZipCrypto entry written per APPNOTE 6.1 with the independent cipher: 12-byte header (last byte = high
+/// byte of the CRC, or of the DOS time with a data descriptor) + the stored bytes, encrypted with `pw`.
+pub fn zipcrypto_payload(pw: &[u8], check: u8, stored: &[u8], r: &mut Rng) -> Vec<u8> {
+    let mut hdr = r.bytes(11);
+    hdr.push(check);
+    hdr.extend_from_slice(stored);
+    crate::pkware::Keys::new(pw).encrypt(&hdr)
+}
+
 impl Stream for ReadStream {
     fn name(&self) -> &'static str {
         "read"
@@ -1117,7 +1280,7 @@ impl Stream for ReadStream {
 
     fn gen(&self, seed: u64, tier: &str) -> GenOut {
         let mut g = GenOut::default();
-        g.rule = "archives from (a) the independent APPNOTE builder (descriptors, forced ZIP64 subsets, prefix, gaps, made-by systems, unknown extras, comments), (b) the crate's writer, (c) builder archives with lying headers (values near 0/2^16/2^32/2^64, AES extras with/without flag, method 99), (d) every truncation point and byte substitutions of seeds, (e) random bytes; each through the seekable (read.seek) and streaming (read.stream) readers; (b2/b3) the streaming entry loop under per-entry consumption patterns (read.streamc: {0, 1, k, all-1, all, all+1, beyond} computed from the entry sizes, and random) over short-read underlying streams (chunk 1, 2, 3, 7, 64, 4096, unlimited) on writer-made and builder-made archives with at least one entry, the visitor on the same archives, and archives with an encrypted / data-descriptor entry the stream must refuse; and a third of them (all truncations and random strings) through ZipWriter::new_append + finish (read.append), (f) pre-allocation liars: junk of 0..200000 bytes (2000000 thorough) + end records (plain and ZIP64) declaring cde_start_pos-1 / cde_start_pos / cde_start_pos+1 / 4x / 64x / 2^32 / 2^64-1 entries, and archives with 50..400 (3000) real entries (read.mem: open only), (f2) the same with the directory declared at offset 0 / in the middle / 1, 45, 46 bytes before and 1 byte behind the end record and counts room/46-1, room/46, room/46+1, room, (f3) dense directories: n minimal 46-byte central headers and an end record declaring n-1 / n / n+1 (the worst valid request: one reserved slot per 46 input bytes), directories hidden in the end record's comment (room 0, growth by doubling), (h) archives EMITTED by CPython zipfile at generation time (harness/pyzip.py; skipped and counted when python3 is missing): stored / deflate / bzip2 / lzma (unsupported: must fail per entry) payloads, archive and entry comments, duplicate names, DOS / Unix / other hosts, mkdir, unseekable output (data descriptors), force_zip64 seekable and unseekable, 0..64 KiB prefixes prepended or written through - the oracle compares names, contents, method, timestamp, mode, comment, CRC, sizes and header offsets with what Python says it wrote, (g) empty ZIP64 archives whose directory offset points beyond the input (D16 regression cases: new_append must refuse; as a hard guard finish is skipped and reported by the oracle should the directory start ever exceed the input length by more than 1 MiB). The oracle re-runs every case on the implementation under a counting global allocator: no panic, deterministic, wall time < 2 s, peak heap while opening <= 16*len + 1 MiB (measurement, not proof; one reserved slot costs size_of::<ZipFileData>()+75 bytes and needs 46 input bytes). distinct = distinct op lines; non-trivial = the archive opens".into();
+        g.rule = "archives from (a) the independent APPNOTE builder (descriptors, forced ZIP64 subsets, prefix, gaps, made-by systems, unknown extras, comments), (b) the crate's writer, (c) builder archives with lying headers (values near 0/2^16/2^32/2^64, AES extras with/without flag, method 99), (c3/c4) finding F4 - passwords on adversarial encrypted entries (read.seek pw=): ZipCrypto-flagged entries holding the first 0..13 bytes of a correctly encrypted entry (right / wrong / check-byte-passing / empty password, with and without data descriptor, compressing methods, lying sizes), AES entries of the three strengths, AE-1/AE-2, cut at every length around salt+2+10 (declared size true / larger / smaller), method 99 with and without the AES record, the record without method 99 / without the flag; and a password on every AES-extra case and on a share of the liars, truncations, substitutions and random strings (seekpw.*; PBKDF2 / key stream / HMAC tables for the model computed with the RustCrypto crates, decrypted streams of compressing methods decoded by the codec libraries directly), (d) every truncation point and byte substitutions of seeds, (e) random bytes; each through the seekable (read.seek) and streaming (read.stream) readers; (b2/b3) the streaming entry loop under per-entry consumption patterns (read.streamc: {0, 1, k, all-1, all, all+1, beyond} computed from the entry sizes, and random) over short-read underlying streams (chunk 1, 2, 3, 7, 64, 4096, unlimited) on writer-made and builder-made archives with at least one entry, the visitor on the same archives, and archives with an encrypted / data-descriptor entry the stream must refuse; and a third of them (all truncations and random strings) through ZipWriter::new_append + finish (read.append), (f) pre-allocation liars: junk of 0..200000 bytes (2000000 thorough) + end records (plain and ZIP64) declaring cde_start_pos-1 / cde_start_pos / cde_start_pos+1 / 4x / 64x / 2^32 / 2^64-1 entries, and archives with 50..400 (3000) real entries (read.mem: open only), (f2) the same with the directory declared at offset 0 / in the middle / 1, 45, 46 bytes before and 1 byte behind the end record and counts room/46-1, room/46, room/46+1, room, (f3) dense directories: n minimal 46-byte central headers and an end record declaring n-1 / n / n+1 (the worst valid request: one reserved slot per 46 input bytes), directories hidden in the end record's comment (room 0, growth by doubling), (h) archives EMITTED by CPython zipfile at generation time (harness/pyzip.py; skipped and counted when python3 is missing): stored / deflate / bzip2 / lzma (unsupported: must fail per entry) payloads, archive and entry comments, duplicate names, DOS / Unix / other hosts, mkdir, unseekable output (data descriptors), force_zip64 seekable and unseekable, 0..64 KiB prefixes prepended or written through - the oracle compares names, contents, method, timestamp, mode, comment, CRC, sizes and header offsets with what Python says it wrote, (g) empty ZIP64 archives whose directory offset points beyond the input (D16 regression cases: new_append must refuse; as a hard guard finish is skipped and reported by the oracle should the directory start ever exceed the input length by more than 1 MiB). The oracle re-runs every case on the implementation under a counting global allocator: no panic, deterministic, wall time < 2 s, peak heap while opening <= 16*len + 1 MiB (measurement, not proof; one reserved slot costs size_of::<ZipFileData>()+75 bytes and needs 46 input bytes). distinct = distinct op lines; non-trivial = the archive opens".into();
         let thorough = tier == "thorough";
         let scale = if thorough { 20 } else { 1 };
         let mut idx = 0u64;
@@ -1133,8 +1296,19 @@ impl Stream for ReadStream {
             if stream_too {
                 g.push(&format!("stream.{kind}"), format!("read.stream bytes={} codec={codec}", hex(bytes)));
             }
-            // opening the same bytes for append: every truncation / random case, a third of the rest
+            // the same bytes with a password on every entry (finding F4): every AES-extra case, a share of the
+            // liars / truncations / substitutions / random strings
             napp += 1;
+            let share = match kind { "aes-extra" => 1, "liar" | "subst" => 3, "truncate" | "random" => 4, _ => 0 };
+            if share != 0 && napp % share == 0 {
+                let mut rp = super::rng_for(seed, "read.pw", napp);
+                let pw = some_password(&mut rp);
+                match seek_pw_line(bytes, &pw) {
+                    Some(l) => g.push(&format!("seekpw.{kind}"), l),
+                    None => *g.dist.entry(format!("gen.skipped.schedule-dependent-decoder.pw.{kind}")).or_insert(0) += 1,
+                }
+            }
+            // opening the same bytes for append: every truncation / random case, a third of the rest
             if kind == "truncate" || kind == "random" || napp % 3 == 0 {
                 g.push(&format!("append.{kind}"), format!("read.append bytes={}", hex(bytes)));
             }
@@ -1284,6 +1458,100 @@ impl Stream for ReadStream {
             if r.chance(1, 4) { l.entries.swap(0, 1); }
             let b = mkzip::build(&l);
             push(&mut g, "aes-extra", &b.bytes, None, true);
+        }
+        // (c3) finding F4: passwords on adversarial ENCRYPTED entries.  ZipCrypto-flagged entries whose stored bytes
+        // are the first 0..13 (and a few more) bytes of a correctly encrypted entry - shorter than, equal to and just
+        // above the 12-byte header -, with the right password, a wrong one, a wrong one that passes the check byte, the
+        // empty one; with and without data descriptor (the check byte is then the DOS time's); with a compressing
+        // method; with a declared size that lies in both directions
+        for _ in 0..(20 * scale) {
+            idx += 1;
+            let mut r = super::rng_for(seed, "read.zcshort", idx);
+            let content = { let n = r.below(6) as usize; r.bytes(n) };
+            let method = *r.pick(&[0u16, 0, 0, 8, 12, 93]);
+            let stored = compress(method, &content);
+            let dd = r.chance(1, 4);
+            let time: u16 = r.below(65536) as u16;
+            let crc = crc32fast::hash(&content);
+            // the crate compares with the time as it re-encodes it (`DateTime::timepart`): use a valid time
+            let time = (time & 0xF800).min(23 << 11) | (time & 0x07E0).min(59 << 5) | (time & 0x1F).min(29);
+            let check = if dd { (time >> 8) as u8 } else { (crc >> 24) as u8 };
+            let full = zipcrypto_payload(GEN_PW, check, &stored, &mut r);
+            let lens: Vec<usize> = if thorough || method != 0 { (0..=full.len().min(14)).collect() } else { (0..=full.len()).collect() };
+            for cut in lens {
+                let mut e = Entry::stored(b"zc", &content);
+                e.method = method;
+                e.flags |= 1;
+                e.time = time;
+                e.data = full[..cut.min(full.len())].to_vec();
+                if dd { e.descriptor = *r.pick(&[Desc::Sig32, Desc::NoSig32]); }
+                match r.below(6) { 0 => e.lie_central_csize = Some(cut as u64 + 1), 1 => e.lie_central_csize = Some((cut as u64).saturating_sub(1)), 2 => e.lie_central_csize = Some(12), _ => {} }
+                let mut l = Layout::new(vec![e, Entry::stored(b"plain", b"second entry")]);
+                if r.chance(1, 4) { l.entries.swap(0, 1); }
+                let b = mkzip::build(&l).bytes;
+                let mut pws: Vec<Vec<u8>> = vec![GEN_PW.to_vec()];
+                match r.below(3) { 0 => pws.push(vec![]), 1 => pws.push(b"wrong".to_vec()), _ => { if let Some(p) = passing_password(&full, check) { pws.push(p); } } }
+                for pw in pws {
+                    match seek_pw_line(&b, &pw) {
+                        Some(line) => g.push("seekpw.zc-short", line),
+                        None => *g.dist.entry("gen.skipped.schedule-dependent-decoder.pw.zc-short".into()).or_insert(0) += 1,
+                    }
+                }
+            }
+        }
+        // (c4) AES entries (AE-1 / AE-2, the three strengths, inner method Stored / Deflated) cut at every length around
+        // salt + verifier + authentication code: nothing, part of the salt, salt only, salt + 1 verifier byte, the
+        // 12 + salt bytes of an empty entry minus one / exactly / plus one, the whole entry minus one byte of the code,
+        // the whole entry; declared size = what is there, or more, or less; right / wrong / empty password; method 99
+        // with and without the AES record, the AES record without method 99, the record without the encryption flag
+        for _ in 0..(12 * scale) {
+            idx += 1;
+            let mut r = super::rng_for(seed, "read.aesshort", idx);
+            let strength = *r.pick(&[1u8, 2, 3]);
+            let bits = 64 + 64 * strength as usize;
+            let sl = bits / 16;
+            let ver = *r.pick(&[1u16, 2]);
+            let inner = *r.pick(&[0u16, 0, 8]);
+            let content = { let n = r.below(5) as usize * r.below(9) as usize; r.bytes(n) };
+            let salt = r.bytes(sl);
+            let enc = super::aes::encrypt(bits, inner, GEN_PW, &content, &salt);
+            let full = enc.payload.clone();
+            let mut cuts: Vec<usize> = vec![0, 1, sl - 1, sl, sl + 1, sl + 2, sl + 3, sl + 11, sl + 12, sl + 13, full.len().saturating_sub(10), full.len() - 1, full.len()];
+            cuts.sort(); cuts.dedup();
+            for cut in cuts {
+                if cut > full.len() { continue; }
+                let mut e = Entry::stored(b"aes", &content);
+                e.crc = if ver == 2 { 0 } else { enc.crc };
+                e.method = 99;
+                e.flags |= 1;
+                e.data = full[..cut].to_vec();
+                let x = super::aes::aes_extra(ver, strength, inner);
+                e.local_extra = x.clone();
+                e.central_extra = x;
+                match r.below(10) {
+                    0 => e.lie_central_csize = Some(cut as u64 + 1),
+                    1 => e.lie_central_csize = Some((cut as u64).saturating_sub(1)),
+                    2 => e.lie_central_csize = Some(sl as u64 + 12),
+                    3 => e.lie_central_csize = Some(sl as u64 + 11),
+                    4 => e.lie_central_csize = Some(0xFFFF_FFFE),
+                    5 => { e.central_extra.clear(); }                       // method 99 without the record
+                    6 => { e.method = inner; }                              // the record without method 99
+                    7 => { e.flags &= !1; }                                 // the record without the flag
+                    _ => {}
+                }
+                let mut l = Layout::new(vec![e, Entry::stored(b"plain", b"second entry")]);
+                if r.chance(1, 4) { l.entries.swap(0, 1); }
+                let b = mkzip::build(&l).bytes;
+                let mut pws: Vec<Vec<u8>> = vec![GEN_PW.to_vec()];
+                match r.below(3) { 0 => pws.push(vec![]), 1 => pws.push(b"wrong".to_vec()), _ => {} }
+                for pw in pws {
+                    match seek_pw_line(&b, &pw) {
+                        Some(line) => g.push("seekpw.aes-short", line),
+                        None => *g.dist.entry("gen.skipped.schedule-dependent-decoder.pw.aes-short".into()).or_insert(0) += 1,
+                    }
+                }
+                if cut == full.len() { push(&mut g, "aes-full", &b, None, false); }
+            }
         }
         // (d) truncations and substitutions of small seeds
         for s in 0..(if thorough { 12 } else { 3 }) {
@@ -1643,6 +1911,29 @@ impl Stream for ReadStream {
             return f;
         }
         if op != "read.seek" { return f; }
+        if let Some(pw) = a.get("pw").filter(|p| p.as_str() != "none").and_then(|p| unhex(p)) {
+            // implementation only (finding F4): a password changes nothing for an entry whose encryption flag is
+            // clear (read.rs: `(Some(_), false) => password = None`), whatever else the entry claims - AES record,
+            // method 99; and an entry WITH the flag is never served without one
+            let bytes = get_hex(&a, "bytes").unwrap_or_default();
+            let flags: Vec<bool> = directory_entries(&bytes).iter().map(|e| e.encrypted).collect();
+            let plain = run_seek(bytes, None);
+            let dec = |s: &str| -> Vec<String> { s.split(" | ").skip(1).map(|e| e.split(" dec=").nth(1).unwrap_or("").split(" byname=").next().unwrap_or("").to_string()).collect() };
+            let (with_pw, without) = (dec(resp), dec(&plain));
+            if with_pw.len() == without.len() {
+                for (i, (x, y)) in with_pw.iter().zip(without.iter()).enumerate() {
+                    match flags.get(i) {
+                        // (an AES record without the flag: `InvalidPassword` from by_index_decrypt is what by_index
+                        // reports as the password-required error - D2)
+                        Some(false) if x != y && !(x == "invalidpw" && y == "err:passwordrequired") => f.push(OracleFailure { what: format!("entry {i} is not encrypted, yet by_index_decrypt(pw={}) gives `{x}` and by_index `{y}`: the password must be ignored", hex(&pw)) }),
+                        Some(true) if y != "err:passwordrequired" && !y.starts_with("err:") => f.push(OracleFailure { what: format!("entry {i} carries the encryption flag, yet by_index without a password gives `{y}`") }),
+                        _ => {}
+                    }
+                }
+            } else {
+                f.push(OracleFailure { what: format!("the password changes the number of entries listed: {} vs {}", with_pw.len(), without.len()) });
+            }
+        }
         let exp = match a.get("expect") { Some(e) => e.clone(), None => return f };
         let parts: Vec<&str> = exp.split(';').collect();
         if parts.len() < 3 { return f; }
